@@ -187,11 +187,17 @@ def ciLen (t : Topo) (cissid : Nat) : Res Nat :=
 def s2cUpdate (s2c : Array Nat) (cur s ci : Nat) : Res (Array Nat) :=
   if cur = 65535 then store s2c s ci else .ok s2c
 
-/-- `if (j > n_emit_state_phone(ci)) warn; else cd2cisen[s] = sseq2sen(m, phone[ci].ssid, j)` -/
+/-- `if (j > n_emit_state_phone(ci)) warn; else cd2cisen[s] = sseq2sen(m, phone[ci].ssid, j)`.
+The test is `>`, not `>=`: for `j` equal to the length of the CI phone's sequence (a CD phone with
+more states than its CI phone, heterogeneous topologies only) the cell *behind* that sequence is
+read — the first cell of the next sequence or, behind the last sequence, the first two `sseq_len`
+bytes, which the in-place swap of an other-endian file (`for (i = 0; i < *sseq_size; ++i)
+SWAP_INT16(...)`) has not touched: that cell is read in file byte order. -/
 def cd2ciStore (f : File) (h : MdefHdr) (l : MdefLayout) (s j cissid cilen : Nat) (c2c : Array Nat) :
     Res (Array Nat) :=
   if j > cilen then .ok c2c else do
-    let v ← rd16 f (l.sseqOff + 2 * (l.topo.start (toI32 cissid).toNat + j)) h.swap
+    let cell := l.topo.start (toI32 cissid).toNat + j
+    let v ← rd16 f (l.sseqOff + 2 * cell) (h.swap && cell < l.sseqSize)
     store c2c s v
 
 /-- the loop over the states of one phone (bin_mdef.c:536-556); `ssid`, `ci` of phone `i`;
